@@ -1,4 +1,11 @@
-"""Thorough-tier extras (canaries, second solver seed, Kani leaf lemmas). Filled in later."""
+"""Thorough-tier extras: vacuity canaries, second solver configuration, Kani leaf lemmas."""
+import concurrent.futures
+import os
+import re
+
+from . import extract, verus
+
+REPO = os.environ.get('VERIF_REPO', '/repo')
 
 
 def kani_lemmas(prop, tier, work):
@@ -6,5 +13,47 @@ def kani_lemmas(prop, tier, work):
     return kani.run(prop, work)
 
 
+def _canary(gen):
+    """append `assert(false)` at the top of every function under contract: each must then FAIL to verify;
+    one that still verifies has contradictory preconditions / axioms (vacuous proof)"""
+    gen.lines = [re.sub(r'/\*@BODY:[A-Za-z0-9_]+@\*/', ' proof { assert(false); } ', ln) for ln in gen.lines]
+    return gen
+
+
 def run_thorough(prop, units, results, work):
-    return {}
+    out = {'canaries': {}, 'problems': []}
+    # 1. canaries
+    with concurrent.futures.ThreadPoolExecutor(max_workers=max(1, len(units))) as ex:
+        futs = {u: ex.submit(verus.run_unit, u, REPO, os.path.join(work, 'canary_' + os.path.basename(u)[:-3]), 60, None, _canary, 4) for u in units}
+        for u, f in futs.items():
+            r = f.result()
+            name = os.path.basename(u)[:-3]
+            if r.status == 'inconclusive' or r.gen is None:
+                out['problems'].append('canary run of %s inconclusive: %s' % (name, r.reason[:200]))
+                continue
+            alive, dead = [], []
+            for fn, f_ in r.gen.functions.items():
+                fr = r.functions.get(f_['name'])
+                errs = [e for e in r.errors if e['fn'] == fn]
+                if fr is None:
+                    continue
+                if fr['success'] and not errs:
+                    alive.append(fn)      # assert(false) verified: vacuous
+                else:
+                    dead.append(fn)
+            out['canaries'][name] = {'functions_with_canary': len(alive) + len(dead), 'canary_failed_as_expected': len(dead), 'vacuous': alive}
+            for fn in alive:
+                out['problems'].append('VACUOUS: assert(false) verifies inside %s (unit %s): contradictory precondition or axiom' % (fn, name))
+    # 2. second solver configuration (different rlimit / thread count): a unit that flips is reported inconclusive
+    with concurrent.futures.ThreadPoolExecutor(max_workers=max(1, len(units))) as ex:
+        futs = {u: ex.submit(verus.run_unit, u, REPO, os.path.join(work, 'alt_' + os.path.basename(u)[:-3]), 90, None, None, 2) for u in units}
+        flips = []
+        for u, f in futs.items():
+            r2 = f.result()
+            r1 = [r for r in results if r.unit == os.path.basename(u)[:-3]][0]
+            if r2.status != r1.status:
+                flips.append('%s: %s vs %s' % (r1.unit, r1.status, r2.status))
+        out['second_configuration'] = {'rlimit': 90, 'threads': 2, 'flips': flips}
+        for f_ in flips:
+            out['problems'].append('unstable proof (verdict differs between solver configurations): ' + f_)
+    return out
